@@ -172,10 +172,9 @@ def unit_link_files(eng, nfiles, kinds, settle_in):
         syms = [f for f in I["forced"] if f != "base"]
         eng.prove("every-definition-is-evaluated-before-the-call-returns(an error in a symbol nobody uses is reported inside the reporting scope)",
                   sorted(syms) == list(range(nfiles)) and len(errors(eng)) == nfiles)
-        if settle_in is not None:
-            # a definition that needs the base (an alias of a label difference under '/', '>>') must find it known or being computed at top level,
-            # not start computing it from inside its own evaluation (a false recursive-definition)
-            eng.prove("the-link-base-expression-is-evaluated-before-any-definition-nobody-has-used-yet", I["forced"][:1] == ["base"])
+        # (an obligation "the link base is evaluated before any definition nobody has used yet" stood here after seed C12f; since fix D54 that order
+        # no longer matters - a value that is busy is simply not ready while something is tried out - so it demanded more than the property
+        # states and was removed: DESIGN section 12)
     r = verify(eng, name, run, post, func="compiler.Compiler.compile_and_link_files")
     for o_ in r["obligations"]:
         o_["cfg"] = dict(kind="linkfiles")
